@@ -4,6 +4,9 @@
  *                                 does not exist makes the first pthread_create fail and the library retry unpinned -
  *                                 and/or given a name) and the script its function runs:
  *        A            register one more at-exit callback (numbered 1,2,.. per thread in registration order)
+ *        N            register an at-exit callback that, when it runs, registers one more
+ *        B<n>         aws_thread_call_once on once-flag n with a once-function that registers an at-exit callback for the
+ *                     thread it runs on (lazy per-thread initialisation)
  *        L<j>         launch thread j (must be managed) from inside this thread
  *        P            explicit schedule point
  *        O<n>         aws_thread_call_once on once-flag n (1..3); the once-function contains a schedule point
@@ -43,7 +46,7 @@ static struct tdef T[MAXTH];
 struct cbarg {
     int thr, idx;
 };
-static struct cbarg cbargs[MAXTH][MAXOPS];
+static struct cbarg cbargs[MAXTH][MAXOPS * 2];
 
 static void launch(int j);
 
@@ -52,6 +55,10 @@ static void launch(int j);
 static aws_thread_once once_flags[NONCE + 1];
 static int once_tag[NONCE + 1];
 static aws_thread_id_t main_id;
+/* the aws_thread whose function the calling OS thread is running (NULL on the scenario's main thread) */
+static __thread struct tdef *cur_def;
+static bool once_reg[NONCE + 1]; /* the once-function of flag n also registers an at-exit callback for its thread */
+static void register_cb(struct tdef *d, bool nested);
 static void once_fn(void *ud) {
     int n = (int)((int *)ud - once_tag);
     vh_begin("OnceRan");
@@ -60,6 +67,9 @@ static void once_fn(void *ud) {
     vh_int("on", vs_self());
     vh_end();
     vs_point(); /* other threads may call in while the function is still running */
+    if (n >= 1 && n <= NONCE && once_reg[n] && cur_def) {
+        register_cb(cur_def, false); /* lazy per-thread initialisation that wants to be undone when the thread ends */
+    }
     vh_begin("OnceEnd");
     vh_int("n", n);
     vh_end();
@@ -84,8 +94,30 @@ static void at_exit_cb(void *ud) {
     vh_end();
 }
 
+/* a callback that registers one more callback while the callbacks are being run */
+static void at_exit_nest_cb(void *ud) {
+    struct cbarg *a = ud;
+    at_exit_cb(ud);
+    register_cb(&T[a->thr], false);
+}
+static void register_cb(struct tdef *d, bool nested) {
+    if (d->nreg + 1 >= MAXOPS * 2) {
+        return;
+    }
+    int idx = ++d->nreg;
+    cbargs[d->id][idx].thr = d->id;
+    cbargs[d->id][idx].idx = idx;
+    int rc = aws_thread_current_at_exit(nested ? at_exit_nest_cb : at_exit_cb, &cbargs[d->id][idx]);
+    vh_begin("AtExitReg");
+    vh_int("thr", d->id);
+    vh_int("idx", idx);
+    vh_int("rc", rc);
+    vh_end();
+}
+
 static void thread_fn(void *arg) {
     struct tdef *d = arg;
+    cur_def = d;
     vh_begin("FnRan");
     vh_int("thr", d->id);
     vh_int("on", vs_self());
@@ -94,15 +126,15 @@ static void thread_fn(void *arg) {
     for (int i = 0; i < d->nops; ++i) {
         const char *op = d->ops[i];
         if (op[0] == 'A') {
-            int idx = ++d->nreg;
-            cbargs[d->id][idx].thr = d->id;
-            cbargs[d->id][idx].idx = idx;
-            int rc = aws_thread_current_at_exit(at_exit_cb, &cbargs[d->id][idx]);
-            vh_begin("AtExitReg");
-            vh_int("thr", d->id);
-            vh_int("idx", idx);
-            vh_int("rc", rc);
-            vh_end();
+            register_cb(d, false);
+        } else if (op[0] == 'N') {
+            register_cb(d, true);
+        } else if (op[0] == 'B') {
+            int n = atoi(op + 1);
+            if (n >= 1 && n <= NONCE) {
+                once_reg[n] = true;
+                do_once(n);
+            }
         } else if (op[0] == 'L') {
             launch(atoi(op + 1));
         } else if (op[0] == 'P') {
